@@ -67,9 +67,16 @@ def cli_check(chk, cases, results, rnd):
         for vi, v in enumerate(c["variants"]):
             t = machine.text_of(v)
             texts.append(("variant%d" % (vi + 1), t, t == formatted))
+        # the formatted text with other line ends and blank-line tails: evy fmt -c must say exactly what evy fmt does
+        # (exit 0 iff evy fmt accepts the text and returns it unchanged)
+        for name, text in (("tail1", formatted + "\n"), ("tail2", formatted + "\n\n"), ("tail3", formatted + "\n\n\n"),
+                           ("head1", "\n" + formatted), ("nofinalnl", formatted.rstrip("\n")), ("crlf", formatted.replace("\n", "\r\n")),
+                           ("trailingblank", formatted.replace("\n", " \n", 1)), ("tabindent", formatted.replace("    ", "\t", 1))):
+            rf = subprocess.run([common.EVY, "fmt"], input=text.encode(), capture_output=True, timeout=30)
+            texts.append((name, text, rf.returncode == 0 and rf.stdout == text.encode()))
         for name, text, want_ok in texts:
             f = os.path.join(tmp, "g%d_%s.evy" % (i, name))
-            open(f, "w", encoding="utf-8").write(text)
+            open(f, "w", encoding="utf-8", newline="").write(text)
             os.chmod(f, 0o644)
             before = (open(f, "rb").read(), os.stat(f).st_mtime_ns)
             r1 = subprocess.run([common.EVY, "fmt", "-c", f], capture_output=True, timeout=30)
